@@ -505,3 +505,42 @@ func ZZ_C06_hmac_generate() {
 	zz.Cover("generate:entropy-raised-to-32", entropy < 32)
 	zz.Cover("generate:entropy-above-32", entropy > 32)
 }
+
+// ZZ_C06_hmac_entropy: a series of mints on one strategy (the random source is shared by all of them): every
+// token's random part is made of the configured number of bytes from the random source - none of it is
+// padding. The engine's random source hands out non-repeating bytes (A-rand), so a random part whose last
+// eight bytes are all zero was not filled from it; natively the same test has a 2^-64 chance per token of
+// condemning a correct implementation. Freshness across the whole series.
+func ZZ_C06_hmac_entropy() {
+	ctx := context.Background()
+	entropy := []int{32, 40, 48, 100}[zz.Choice("entropy", 4)]
+	strat := &HMACStrategy{Config: &zzCfg{entropy: entropy, global: zzKey(0, 32), hasher: zzHasherChoice()}}
+	mints := 26
+	if zz.Thorough() {
+		mints = 70
+	}
+	seen := map[string]bool{}
+	for i := 0; i < mints; i++ {
+		tok, _, err := strat.Generate(ctx)
+		zz.Assert(err == nil, "entropy: minting succeeds")
+		if err != nil {
+			return
+		}
+		parts := strings.Split(tok, ".")
+		r, derr := zzB64.DecodeString(parts[0])
+		zz.Assert(derr == nil && len(r) == entropy, "entropy: the random part has the configured number of bytes")
+		if derr != nil || len(r) < 8 {
+			return
+		}
+		zero := true
+		for _, b := range r[len(r)-8:] {
+			if b != 0 {
+				zero = false
+			}
+		}
+		zz.Assert(!zero, "entropy: the random part is filled from the random source to its end (no zero padding)")
+		zz.Assert(!seen[parts[0]], "entropy: random parts never repeat in a series of mints")
+		seen[parts[0]] = true
+	}
+	zz.Cover("entropy:series-minted", true)
+}
